@@ -92,7 +92,8 @@ bool Logic::isBuiltinFunction(SymRef const sr) const {
 }
 
 bool Logic::isReservedWord(std::string const & name) const {
-    return tokens::tokenNames.find(name) != tokens::tokenNames.end();
+    // "_" and "!" are reserved words of the term language although they are no command tokens
+    return name == "_" or name == "!" or tokens::tokenNames.find(name) != tokens::tokenNames.end();
 }
 
 // Escape the symbol name if it contains a character not allowed in the simple symbol, as defined by SMT-LIB 2.6
@@ -1356,7 +1357,17 @@ SRef Logic::getSortRef(SymRef const sr) const {
 }
 
 std::string Logic::sortToString(SRef s) const {
-    return sort_store.sortToString(s);
+    // Sort symbols are symbols like any other: quote them where a simple symbol is not enough
+    Sort const & sort = sort_store[s];
+    std::string name = protectName(sort_store.getSortSymName(s), false);
+    if (sort.getSize() > 0) {
+        name = "(" + name + " ";
+        for (unsigned i = 0; i < sort.getSize(); i++) {
+            name += sortToString(sort[i]) + (i == sort.getSize() - 1 ? "" : " ");
+        }
+        name += ")";
+    }
+    return name;
 }
 
 SRef Logic::getUniqueArgSort(SymRef sr) const {
